@@ -90,12 +90,13 @@ def key_of(v):
 def main(tier, seed):
     from framework import Runner, Query
     R = Runner('C10', tier, seed); R.setup()
+    R.blocks = models_str.STD_BLOCKS if tier == 'quick' else None       # quick: names over Latin, CJK, fullwidth and pictograph blocks; thorough: all of Unicode
     quick = tier == 'quick'
     c01.load_keywords(R)
     R.assumptions += ['operands S, P and image components are atoms with 1 symbolic well-formed char (one nesting each); interval numerals of 1..3 symbolic digits with 0..2 leading zeros; placeholder followed by 1..2 identifier chars']
     shapes = c03.derived_shapes() + image_shapes()
     for fmt in FORMATS:
-        plist = [dict(fmt=fmt, name=('derived/' + nm) if not nm.startswith('derived/') else nm, spec=(c01.subst_names_partial(sp) if (quick and fmt == 'han') else sp), pattern=p) for nm, sp in shapes for p in (['none'] if quick else ['none', ('all', 1)])]
+        plist = [dict(fmt=fmt, name=('derived/' + nm) if not nm.startswith('derived/') else nm, spec=(sp), pattern=p) for nm, sp in shapes for p in (['none'] if quick else ['none', ('all', 1)])]
         R.run_query(Query('sugar/' + fmt, 'c03', 'path', plist, '%d sugar shapes (4 derived copulas, multi-placeholder images) x both pipelines' % len(shapes)), confirm, key_of)
         plist = []
         for wrap in (False, True):
